@@ -64,8 +64,12 @@ for s in seeds:
     caught = rc == 1 and any('property=%s' % prop in l for l in viol)
     results[s] = 'caught' if caught else ('HARNESS rc=%d' % rc if rc not in (0, 1) else 'MISSED')
     print('%s: %s rc=%d %.0fs violations=%d' % (s, results[s], rc, wall, len(viol)))
+    shown = 0
     for l in o.splitlines():
         if l.startswith('  ') and 'violat' in l.lower():
             print('   ', l[:200])
+        elif l.startswith('  detail:') and shown < 2:
+            shown += 1
+            print('   ', l[:260])
     sys.stdout.flush()
 print(json.dumps(results))
